@@ -206,3 +206,70 @@ def gen_stubs(sc, protos, names, tag, facts_override=None, with_setter=True):
     with open(path, "w") as f:
         f.write("\n".join(out) + "\n")
     return path, used
+
+
+# --------------------------------------------------------------------------- line groups (C10, C09, C08)
+
+def siegbahn_aliases(inc):
+    """Siegbahn alias macros of include/xraylib.h: name -> IUPAC target name."""
+    txt = C_COMMENT.sub("", read(os.path.join(inc, "xraylib.h")))
+    out = []
+    for m in re.finditer(r"^[ \t]*#define[ \t]+([A-Z][A-Z0-9]*_LINE)[ \t]+([A-Z0-9]+_LINE)[ \t]*$", txt, re.M):
+        out.append((m.group(1), m.group(2)))
+    return out
+
+
+def gen_line_spec(sc, mac):
+    """gen/spec_lines.h: group membership derived from the *names* of the line macros.
+
+      K-alpha members : ^KL<n>_LINE
+      K-beta  members : ^K[MNOP]<n>?_LINE in header order, KP5 excluded (TABLES_WF: its rate is 0; audited)
+      L-alpha members : the LA<n> Siegbahn aliases
+      doublets        : <shell><letter><d1><d2>_LINE -> <shell><letter><d1>, <shell><letter><d2>
+      L-beta members  : the LB<n> Siegbahn aliases + L3N6, L3N7 (the library's published L-beta set), each with
+                        the shell named by the first component of its IUPAC name
+    """
+    d = sc.gen_dir()
+    names = [n for n, _ in mac.lines_all]
+    ka = [n for n in names if re.match(r"^KL\d_LINE$", n)]
+    kb = [n for n in names if re.match(r"^K[MNOP]\d?_LINE$", n) and n != "KP5_LINE"]
+    doublets = []
+    for n in names:
+        m = re.match(r"^([KLMNOP]\d?)([LMNOPQ])(\d)(\d)_LINE$", n)
+        if m:
+            a = "%s%s%s_LINE" % (m.group(1), m.group(2), m.group(3))
+            b = "%s%s%s_LINE" % (m.group(1), m.group(2), m.group(4))
+            if a in mac.line and b in mac.line:
+                doublets.append((n, a, b))
+    ali = siegbahn_aliases(sc.inc)
+    la = [t for a, t in ali if re.match(r"^LA\d+_LINE$", a)]
+    lb = [(a, t) for a, t in ali if re.match(r"^LB\d+_LINE$", a)]
+    lbm = [(a, t) for a, t in lb] + [("L3N6_LINE", "L3N6_LINE"), ("L3N7_LINE", "L3N7_LINE")]
+    if len(ka) != 3 or len(kb) < 20 or len(doublets) != 7 or len(la) != 2 or len(lb) != 11:
+        raise Undecided("line-group derivation from names failed: ka=%d kb=%d doublets=%d la=%d lb=%d" %
+                        (len(ka), len(kb), len(doublets), len(la), len(lb)))
+    out = ["/* generated from the macro names of include/xraylib-lines.h and the Siegbahn aliases of include/xraylib.h */",
+           "#ifndef SPEC_LINES_H", "#define SPEC_LINES_H",
+           "#define SPEC_SLOT(line) (-(line) - 1)",
+           "#define SPEC_NLINES %d" % len([1 for n, v in mac.lines_all if v < 0]),
+           "#define SPEC_LINE_MIN %d" % min(v for _, v in mac.lines_all),
+           "static const int SPEC_KA[%d] = {%s};" % (len(ka), ", ".join(ka)),
+           "#define SPEC_NKA %d" % len(ka),
+           "static const int SPEC_KB[%d] = {%s};" % (len(kb), ", ".join(kb)),
+           "#define SPEC_NKB %d" % len(kb),
+           "static const int SPEC_LA[2] = {%s};" % ", ".join(la),
+           "#define SPEC_NDOUBLETS %d" % len(doublets),
+           "static const struct { int line, m1, m2; } SPEC_DOUBLET[%d] = {%s};" % (
+               len(doublets), ", ".join("{%s, %s, %s}" % t for t in doublets)),
+           "#define SPEC_NLB %d" % len(lbm)]
+    rows = []
+    for a, t in lbm:
+        m = re.match(r"^(L\d)", t)
+        if not m:
+            raise Undecided("L-beta member %s is not an L line" % t)
+        rows.append("{%s, %s_SHELL}" % (a, m.group(1)))
+    out.append("static const struct { int line, shell; } SPEC_LB[%d] = {%s};" % (len(rows), ", ".join(rows)))
+    out.append("#endif")
+    with open(os.path.join(d, "spec_lines.h"), "w") as f:
+        f.write("\n".join(out) + "\n")
+    return {"ka": ka, "kb": kb, "doublets": doublets, "la": la, "lb": lbm}
